@@ -277,3 +277,26 @@ def attach_alloc_monitor():
 
     SA._allocate_factorio_virtual_signal = _allocate_factorio_virtual_signal
     _attached.add("alloc")
+
+
+def attach_diag_monitor():
+    """ProgramDiagnostics.error / warning: every diagnostic with stage and message (C14)."""
+    if "diag" in _attached:
+        return
+    driver.setup()
+    from dsl_compiler.src.common import diagnostics as dg_mod
+
+    PD = dg_mod.ProgramDiagnostics
+    orig_err = PD.error
+
+    @functools.wraps(orig_err)
+    def error(self, message, *a, **k):
+        try:
+            DIAG_LOG.append({"severity": "error", "stage": k.get("stage") or getattr(self, "default_stage", None),
+                             "message": str(message)[:400]})
+        except Exception:  # noqa: BLE001
+            pass
+        return orig_err(self, message, *a, **k)
+
+    PD.error = error
+    _attached.add("diag")
